@@ -328,22 +328,33 @@ def run(rep, repo, tier):
   # ---- R8 weight transfer
   wcalls = []
 
-  def mk(i, has_w=True):
+  def mk(i, ws=("w",), ntrain=None):
+    """ws: names of the layer's variables; ntrain: how many are trainable
+    (default all).  Layers 3/13 are frozen, 4/14 hold statistics only."""
+    names = ["%s%d" % (w, i % 10) for w in ws]
+    nt = len(names) if ntrain is None else ntrain
     return Mock("layer%d" % i, {
-        "get_weights": (lambda pe, a, k, i=i, has_w=has_w:
-                        ["w%d" % i] if has_w else []),
-        "set_weights": lambda pe, a, k, i=i: wcalls.append((i, a[0]))})
-  s_layers = [mk(0), mk(1, False), mk(2)]
-  q_layers = [mk(10), mk(11), mk(12)]
+        "name": "layer%d" % i, "trainable": nt > 0 or not names,
+        "weights": list(names), "trainable_weights": names[:nt],
+        "non_trainable_weights": names[nt:],
+        "get_weights": lambda pe, a, k, names=names: list(names),
+        "set_weights": lambda pe, a, k, i=i: wcalls.append((i, list(a[0])))})
+  s_layers = [mk(0), mk(1, ()), mk(2), mk(3, ("k", "b"), 0),
+              mk(4, ("mean", "var"), 0)]
+  q_layers = [mk(10), mk(11, ()), mk(12), mk(13, ("k", "b"), 0),
+              mk(14, ("mean", "var"), 0)]
   try:
     run_mq(repo, [L("Dense", "d1", use_bias=True, activation=None)],
            {"d1": {"kernel_quantizer": "K"}}, transfer=True,
            src_layers=s_layers, q_layers=q_layers)
-    rep.check(wcalls == [(10, ["w0"]), (12, ["w2"])], "R8", unit,
+    want = [(10, ["w0"]), (12, ["w2"]), (13, ["k3", "b3"]),
+            (14, ["mean4", "var4"])]
+    rep.check(wcalls == want, "R8", unit,
               "weight-transfer",
               "with transfer_weights the set_weights calls are %s; expected "
-              "the weights of source layers 0 and 2 copied to the layers at "
-              "the same positions of the new model" % wcalls, loc=loc)
+              "the weights of every source layer that has any (trainable, "
+              "frozen or statistics-only) copied to the layer at the same "
+              "position of the new model: %s" % (wcalls, want), loc=loc)
   except PyRaise as e:
     rep.fail("R8", unit, "weight-transfer-raises", "raises %s" % e, loc=loc)
   rep.require_instances("R1", 10)
